@@ -111,6 +111,12 @@ func Generate(rng *lib.Rng, n int, p Profile, bin, home, work string) ([]*Case, 
 		var top *Top
 		if p.OrderLimit {
 			top = g.GenOrderLimitTop(i)
+		} else if p.Having {
+			top = g.GenHavingTop(i)
+		} else if p.ManyKeys {
+			top = g.GenManyKeysTop(i)
+		} else if p.OuterTrig {
+			top = g.GenOuterTrigTop(i)
 		} else if p.TrigFamily {
 			top = g.GenTriggerTop(i)
 		} else if p.Logic {
